@@ -58,6 +58,11 @@ pub enum Walk {
     TryForEachOk,
     TryForEachFail(usize),
     Insertion,
+    /// `iter()` / `iter_rev()` advanced this many times (< n), then dropped.
+    IterPartial(usize, bool),
+    /// `for_each` (false) / `fold` (true) whose closure panics at this invocation;
+    /// the caller catches the panic and goes on using the graph.
+    PanicIn(usize, bool),
     /// Two walks alive at once: `iter()` and `iter_rev()` advanced in lock step
     /// (`iter().zip(iter_rev())`), a second `iter()` started when the first is
     /// half way.
@@ -447,8 +452,11 @@ pub fn decode_build_case(t: &mut Tape, x: &mut Tape, max_n: usize, cap: Option<u
     } else {
         let len = 2 + x.below(8);
         (0..len)
-            .map(|_| match x.below(14) {
+            .map(|_| match x.below(17) {
                 13 => Walk::Interleaved,
+                14 => Walk::IterPartial(x.below(n), x.chance(1, 2)),
+                15 => Walk::PanicIn(x.below(n), x.chance(1, 2)),
+                16 => Walk::IterPartial(x.below(n), x.chance(1, 2)),
                 0 => Walk::Iter,
                 1 => Walk::IterRev,
                 2 => Walk::Topo,
@@ -1029,6 +1037,47 @@ pub fn check_c14(case: &BuildCase, b: &mut Built, f: &BuildFacts) -> Vec<Violati
                         }
                     }
                 }
+                Walk::IterPartial(k, rev) => {
+                    if n > 0 {
+                        let k = (*k).min(n - 1);
+                        // abandoned part-way; the next walks must not notice
+                        if *rev {
+                            let _ = g.iter_rev().take(k).count();
+                        } else {
+                            let _ = g.iter().take(k).count();
+                        }
+                    }
+                }
+                Walk::PanicIn(p, fold) => {
+                    if n > 0 {
+                        struct CallerPanic;
+                        let p = (*p).min(n - 1);
+                        let mut calls = 0usize;
+                        let r = catch_unwind(AssertUnwindSafe(|| {
+                            if *fold {
+                                let _ = g.fold(0usize, |a, _f| {
+                                    calls += 1;
+                                    if calls == p + 1 {
+                                        std::panic::panic_any(CallerPanic);
+                                    }
+                                    a + 1
+                                });
+                            } else {
+                                g.for_each(|_f| {
+                                    calls += 1;
+                                    if calls == p + 1 {
+                                        std::panic::panic_any(CallerPanic);
+                                    }
+                                });
+                            }
+                        }));
+                        match r {
+                            Err(e) if e.is::<CallerPanic>() => {}
+                            Err(e) => std::panic::resume_unwind(e),
+                            Ok(()) => out.push(v("C14", "closure-not-invoked", format!("{at}: the closure was invoked {calls} times, fewer than {}", p + 1))),
+                        }
+                    }
+                }
                 Walk::TryForEachFail(p) => {
                     if n > 0 {
                         let p = (*p).min(n - 1);
@@ -1241,6 +1290,13 @@ pub fn check_c17(case: &BuildCase, b: &Built, f: &BuildFacts) -> Vec<Violation> 
                 }
             },
         }
+        }
+        // walks abandoned part-way (a peek, a `take(k)`, a `find`), then full walks
+        if n > 0 {
+            let k = (case.fail_pos % n).max(1).min(n);
+            let _ = gi.iter().take(k).count();
+            let _ = gi.iter_rev().take((k + 1).min(n)).count();
+            let _ = gi.iter().next();
         }
         // two walks alive at once (lock step), on the value itself
         {
